@@ -151,6 +151,7 @@ fn authentic_run(run: usize, rng: &mut Rng, w: &mut NdjsonWriter, acc: &mut Acc)
     let mut bytes = j.hdr.bytes();
     let mut owner = 0usize;
     let mut what = Vec::new();
+    let mut flipped: Vec<(usize, u8)> = Vec::new();
     for _ in 0..nflips {
         let (f, at, own) = if rng.chance(1, 4) {
             let k = rng.range(1, npieces as u64) as usize;
@@ -162,10 +163,16 @@ fn authentic_run(run: usize, rng: &mut Rng, w: &mut NdjsonWriter, acc: &mut Acc)
         };
         let bits = c11::field_bits(&j.hdr, f, at);
         let (o, b) = *rng.pick(&bits);
+        if flipped.contains(&(o, b)) {
+            // the same bit twice would restore the authentic path: this run flips one bit only
+            continue;
+        }
+        flipped.push((o, b));
         bytes[o] ^= 1 << b;
         owner = owner.max(own);
         what.push(format!("{f}@{at} byte {o} bit {b}"));
     }
+    let nflips = flipped.len();
     let h0 = HdrC::parse_or_meta(&bytes);
     let reference = h0.clone();
     let hop_id = move |h: &HopC| -> i64 { reference.hop.iter().position(|x| x.mac == h.mac && x.cin == h.cin && x.ceg == h.ceg).map(|p| p as i64 + 1).unwrap_or(-1) };
